@@ -11,11 +11,14 @@ c) flush task: the passive buffer is cleared (clear_and_complete / MemTable::flu
    the InflightGuard is not dropped before publication.
 d) scan reaches all three sources: passive snapshot (PassiveBufferSet::non_empty), in-flight snapshot (InflightSegments::snapshot) and the active memtable / segment flows.
 e) response writers emit a row only on the true edge of try_accept_row; try_accept_row consults seen_ids before any offset/limit accounting.
+g) MemTableSource::run visits every passive buffer handed to it: in both loops over passive_memtables each iteration reaches the row-collection call before the next iteration
+   (no skip of a busy buffer); no try_lock/try_read/try_write is used by engine::core::read code reachable from scan.
+h) PassiveBufferSet only ever removes buffers with `retain` under an emptiness predicate (MemTable::len) — no drain/remove/truncate/clear of possibly non-empty passive buffers.
 f) run_worker_loop awaits on_store inline (no spawn) before the next recv.
 Not decided: the window between publication and release of the passive copy (cross-task atomicity), aggregates not being de-duplicated.
 """
-FLOOR = 8
-REQUIRED = ["C03.a", "C03.b1", "C03.b2", "C03.b3", "C03.c", "C03.d", "C03.e1", "C03.e2", "C03.f"]
+FLOOR = 12
+REQUIRED = ["C03.a", "C03.b1", "C03.b2", "C03.b3", "C03.c", "C03.d", "C03.e1", "C03.e2", "C03.f", "C03.g", "C03.h"]
 FLUSH_TASK = "engine::core::write::flush_worker::FlushWorker::run::{closure#0}::{closure#0}"
 
 
@@ -265,3 +268,68 @@ def run(ctx):
             bad.append(("query-not-awaited", "on_query_streaming not awaited inline", None))
         return bad
     ctx.run("C03.f", "K9 LOOP", "worker::run_worker_loop", "one message at a time: STORE is applied before a later message is looked at", f_)
+
+
+    def g(inst):
+        b = F.method("MemTableSource", "FlowSource", "run")
+        nxs = [c for c in b.find_calls(r"Iterator>::next$") if has_origin(b.origins(c.args[0], transparent=NEXT_TRANSPARENT), None, proj_contains=[".passive_memtables"])]
+        if len(nxs) < 2:
+            raise AnchorMissing("loops over config.passive_memtables in MemTableSource::run (%d)" % len(nxs))
+        coll = b.find_calls(r"MemTableSource::(collect_rows_from_memtable|push_rows_from_memtable)$")
+        bad = []
+        for nx in nxs:
+            some = variant_edge(b, nx, "Some")
+            body_blocks = set(b.reach(0, src_edges=some, cut_blocks=[nx.bb]))
+            mine = [c for c in coll if c.bb in body_blocks]
+            inst.sites.append("%s -> %s" % (sp(b, nx.bb), [sp(b, c.bb) for c in mine]))
+            if not mine:
+                bad.append(("passive-loop-without-scan", "a loop over the passive buffers never scans them", None))
+                continue
+            seen = b.reach(0, src_edges=some, cut_blocks=[c.bb for c in mine])
+            if nx.bb in seen:
+                bad.append(("passive-buffer-skipped", "an iteration over the passive buffers can move on to the next buffer without scanning this one (e.g. when it is busy): acknowledged rows are observed zero times", witness_path(b, seen, nx.bb)))
+            # the scanned table is the iterated buffer's guard
+            for c in mine:
+                L = b.origins(c.args[1], transparent=NEXT_TRANSPARENT, depth=16)
+                if not any(l[0] == "call" and ("Mutex" in l[1] and "lock" in l[1]) for l in L) and not has_origin(L, None, proj_contains=[".passive_memtables"]):
+                    pass
+        cg = CallGraph(F)
+        roots = [k for k in cg.nodes if norm_path(k).startswith("engine::query::scan::scan")]
+        seen = cg.reachable(roots)
+        for k in seen:
+            if k in cg.nodes and norm_path(k).startswith(("engine::core::read::", "<engine::core::read::")):
+                for t in cg.edges[k]:
+                    if re.search(r"(Mutex|RwLock)(::<T>)?::try_(lock|read|write)(_owned)?$", t):
+                        bad.append(("read-path-try-lock:%s" % norm_path(k.split("::{closure")[0]), "%s uses %s on the read path: a busy source would be skipped instead of waited for" % (k, t), cg.chain(seen, k)))
+        return bad
+    ctx.run("C03.g", "K9 LOOP + K4", "MemTableSource::run passive loops", "every passive buffer of the snapshot is scanned", g)
+
+    def h(inst):
+        bad = []
+        ks = [k for k in F.find(r"^engine::core::memory::passive_buffer_set::PassiveBufferSet::") if "__CALLSITE" not in k]
+        if len(ks) < 4:
+            raise AnchorMissing("PassiveBufferSet bodies")
+        retains = 0
+        for k in ks:
+            b = F.fn_exact(k)
+            for c in b.calls:
+                if c.cleanup:
+                    continue
+                if re.search(r"(Vec|VecDeque)::(drain|remove|truncate|clear|pop|swap_remove|split_off|pop_front|pop_back|dedup\w*)$", c.nname):
+                    bad.append(("passive-removal:%s:%s" % (norm_path(k.split("::{closure")[0]).split("::")[-1], c.nname.split("::")[-1]),
+                                "%s removes passive buffers with %s (only empty buffers may leave the set before their segment is published)" % (k, c.nname), None))
+                if re.search(r"Vec::retain(_mut)?$", c.nname):
+                    retains += 1
+                    ok = False
+                    for l in b.origins(c.args[1]):
+                        if l[0] == "agg" and l[1].startswith("closure:"):
+                            cb = F.fn_exact(l[1].split(":", 1)[1])
+                            if cb.find_calls(r"MemTable::len$|MemTable::is_empty$"):
+                                ok = True
+                    inst.sites.append("%s retain with emptiness predicate: %s" % (norm_path(k).split("::")[-1] if "closure" not in k else norm_path(k).split("::")[-2], ok))
+                    if not ok:
+                        bad.append(("passive-retain-predicate:%s" % norm_path(k.split("::{closure")[0]).split("::")[-1], "%s retains passive buffers under a predicate that does not test emptiness" % k, None))
+        if retains < 2:
+            raise AnchorMissing("retain sites in PassiveBufferSet: %d" % retains)
+        return bad
+    ctx.run("C03.h", "K4 EFFECT", "PassiveBufferSet", "a passive buffer leaves the set only when it is empty", h)
